@@ -182,7 +182,7 @@ async def one_name(net, hyg, plan):
         return viol, mon
     finally:
         c.close()
-        await w.server.close()
+        await w.stop()
         w.cleanup()
 
 
@@ -204,7 +204,7 @@ def run_case(case):
             return await one_name(net, hyg, plan)
         res, info = W.run(main, seed=plan["seed"], net_kwargs=dict(latency=0.0005))
         if res is None:
-            return {"inconclusive": info.get("deadlock") or info.get("error"), "trace": info.get("trace", "")}
+            return W.failed(info)
         viol, mon = res
         for k, v in mon.items():
             out["monitors"][k] = out["monitors"].get(k, 0) + v
